@@ -259,17 +259,45 @@ func c12Kind(f *c12File) string {
 // c12Corrupt applies one corruption to the files on disk; returns a description, the model
 // op, and whether it changes what the store would hand out (vs. a change the sidecar parser
 // does not see).
+// c12ForceChainFile >= 0 makes c12Corrupt hit that file of the consolidation chain (directed scenarios)
+var c12ForceChainFile = -1
+
+func c12ChainLen(st *c12Store) int {
+	n := 0
+	for _, f := range st.files {
+		if f.chain {
+			n++
+		}
+	}
+	return n
+}
+
 func c12Corrupt(r *vfRng, st *c12Store) (kind string, op string, effective bool, target *c12File) {
 	i := r.Intn(len(st.files))
 	if r.Chance(40) {
 		i = len(st.files) - 1 - r.Intn(min(2, len(st.files)))
 	}
+	dataKind, dataCase := r.Chance(60), r.Intn(6)
+	if c12ForceChainFile >= 0 {
+		// directed scenario: a DATA corruption (not in the file header, not a truncation SQLite would trip
+		// over first) of the k-th file of the chain the reap consumes
+		k := 0
+		for j, cf := range st.files {
+			if cf.chain {
+				if k == c12ForceChainFile%c12ChainLen(st) {
+					i = j
+				}
+				k++
+			}
+		}
+		dataKind, dataCase = true, []int{0, 1, 5}[r.Intn(3)]
+	}
 	f := st.files[i]
 	target = f
 	cur, _ := os.ReadFile(f.path)
-	if r.Chance(60) {
+	if dataKind {
 		b := append([]byte(nil), cur...)
-		switch r.Intn(6) {
+		switch dataCase {
 		case 0:
 			pos := r.Intn(len(b))
 			b[pos] ^= 1 << uint(r.Intn(8))
@@ -447,11 +475,21 @@ func TestVerifC12(t *testing.T) {
 			c.impl = append(c.impl, "ok")
 		}
 		timing := []string{"none", "before-start", "before-start", "after-first-verification", "after-first-verification"}[r.Intn(5)]
+		// directed: every run starts with late corruptions of EACH file a reap consumes (the full snapshot's
+		// database first), applied after the first verification, with the reap as the first consumer
+		directed := it < 8 && c12ChainLen(st) >= 2
+		c12ForceChainFile = -1
+		if directed {
+			timing = "after-first-verification"
+			c12ForceChainFile = it
+			rep.Count("directed:late-corruption-then-reap")
+		}
 		kind, effective := "none", false
 		var target *c12File
 		apply := func() {
 			var op string
 			kind, op, effective, target = c12Corrupt(r, st)
+			c12ForceChainFile = -1
 			c.ops = append(c.ops, op)
 			c.impl = append(c.impl, "ok")
 		}
@@ -492,6 +530,9 @@ func TestVerifC12(t *testing.T) {
 		var seqNames []string
 		for k := 0; k < nc; k++ {
 			which := r.Intn(4)
+			if directed && k == 0 {
+				which = 3
+			}
 			name := []string{"ensure", "open-restore", "open-install", "reap"}[which]
 			seqNames = append(seqNames, name)
 			used := false // the consumer went ahead
